@@ -5,6 +5,10 @@ CONSTANTS
   MaxReq = 1000000
   Overlap = TRUE
   ReturnOnEOF = TRUE
+  MaxPause = 1000000
+  IdleLimit = 0
+  MaxFaults = 1000000
+  AcceptSurvives = TRUE
 INVARIANTS Track StepOncePerRequestInOrder AckMatches UnknownGetsUnknown AckAfterStep StateIsEffect
 POSTCONDITION TraceAccepted
 CHECK_DEADLOCK FALSE
